@@ -3,8 +3,8 @@
 PROPS = ['C01', 'C02', 'C03', 'C04', 'C05', 'C06', 'C07', 'C08', 'C09', 'C10',
          'C11', 'C12', 'C13', 'C14', 'C15', 'C16', 'C17', 'C18']
 
-_Q = dict(runs=3200, batch=100)
-_T = dict(runs=48000, batch=250)
+_Q = dict(runs=9600, batch=150)
+_T = dict(runs=240000, batch=500)
 BUDGET = {p: dict(quick=dict(_Q), thorough=dict(_T)) for p in PROPS}
 
 REAL_VS_STUB = dict(
